@@ -1204,6 +1204,25 @@ func (m *runner) truncation(base outcome, states []cutInfo) {
 			}
 			want = base.vals[:cnt]
 		}
+		if st == "in-char" && 0 <= frag && o.err == nil {
+			// independent of what slip makes of the fragment alone: a character NAME of two or
+			// more characters (not u+hex digits) never denotes its own first letter, so "#\\Spac"
+			// (a cut "#\\Space") read as #\\S is a different object read silently
+			name := T[c.Forms[frag].S:k]
+			if strings.HasPrefix(name, "#\\") {
+				name = name[2:]
+				first, sz := utf8.DecodeRuneInString(name)
+				hex := 1 < len(name) && (name[0] == 'u' || name[0] == 'U')
+				for _, b := range name[min(1, len(name)):] {
+					hex = hex && strings.ContainsRune("0123456789abcdefABCDEF", b)
+				}
+				if sz < len(name) && !hex && 0 < len(o.vals) && o.vals[len(o.vals)-1] == fmt.Sprintf("c:U+%04X", first) {
+					m.fail("truncation cut=in-char want=error-of-cut-name got=first-letter", "%q: the cut character name %q is no character name, it is read as its first letter %s", T[:k], name, o.vals[len(o.vals)-1])
+					continue
+				}
+				x.Cover("truncation:cut-character-name-judged")
+			}
+		}
 		switch {
 		case wantErr && o.err == nil:
 			m.fail("truncation cut="+st+" want=error-of-cut-token got=value", "%q: the cut token %q alone is an error, the whole is read as %s", T[:k], T[c.Forms[frag].S:k], o)
